@@ -859,7 +859,30 @@ class StmtMixin:
         for t in node.targets:
             self.assign_target(t, v, st, node)
         self.note_alias(node.value, node.targets, st)
+        self.note_heap_alias(node, v, st)
         return [(st, Outcome("normal"))]
+
+    def note_heap_alias(self, node, v, st):
+        """`x = obj.field` / `x = d[k]` where the value is a MUTABLE container: Python binds x to the same object.
+        * a container read from a heap field: x becomes a LINK to that field (read and mutated through it);
+        * a container taken out of another container: no write-through model - x is marked, mutating it is refused."""
+        if len(node.targets) != 1 or not isinstance(node.targets[0], ast.Name) or not self.is_mutable_container(v) or self.spec_mode:
+            return
+        name = node.targets[0].id
+        if name in getattr(self.c, "alias_ok", ()):
+            return
+        if isinstance(node.value, ast.Attribute) and not v.is_py:
+            la = getattr(self, "_last_attr", None)
+            if la is not None and la[0] is node.value:
+                recv, cname, fname = la[1]
+                if not recv.is_py:
+                    st.ghost[("link", name)] = (recv, cname, fname)
+                    return
+            st.escaped.add(name)  # a container-valued attribute that is not a plain heap field (derived view ..)
+        elif isinstance(node.value, ast.Attribute) and v.is_py:
+            st.escaped.add(name)
+        elif isinstance(node.value, ast.Subscript) and not isinstance(node.value.slice, ast.Slice):
+            st.escaped.add(name)
 
     def s_AnnAssign(self, node, st):
         if node.value is None:
@@ -885,7 +908,7 @@ class StmtMixin:
 
     def check_alias(self, name, st, node):
         if name in st.escaped and name not in getattr(self.c, "alias_ok", ()):
-            raise Unsupported(f"in-place mutation of '{name}' after it was aliased (value semantics not justified)", node)
+            raise Unsupported(f"in-place mutation of '{name}' after it was aliased (value semantics not justified; `alias_ok=` overrides)", node)
 
     def s_AugAssign(self, node, st):
         cur = self.eval(ast.copy_location(_load(node.target), node), st)
@@ -908,6 +931,12 @@ class StmtMixin:
             want = self.c.locals.get(t.id) if self.c else None
             if want is not None and not (v.ty is PYOBJ and v.is_py and not isinstance(v.py, ops._CT)):
                 v = coerce(v, want)
+            lk = st.ghost.get(("link", t.id))
+            if lk is not None:
+                if mutate:
+                    self.write_field(st, lk[0], lk[2], v, node, mutate=True)  # write through to the aliased field
+                    return
+                del st.ghost[("link", t.id)]  # re-bound: no longer an alias
             if not mutate and t.id in getattr(self, "_params", ()) and t.id not in st.rebound and ("param_final", t.id) not in st.ghost:
                 st.ghost[("param_final", t.id)] = st.env.get(t.id)  # the caller-visible final value of a re-bound parameter
             st.env[t.id] = v
@@ -926,7 +955,7 @@ class StmtMixin:
             recv = self.eval(t.value, st)
             if not isinstance(recv.ty, T.Ref):
                 raise Unsupported(f"attribute store on {recv.ty}", node)
-            self.write_field(st, recv, t.attr, v, node)
+            self.write_field(st, recv, t.attr, v, node, mutate=mutate)
             return
         if isinstance(t, ast.Subscript):
             from . import models
@@ -1045,6 +1074,10 @@ class StmtMixin:
         cb = z_and(*b.pc[base:])
         if ca is True or cb is True:
             return None
+        la = {k_: v_ for k_, v_ in a.ghost.items() if isinstance(k_, tuple) and k_[0] == "link"}
+        lb = {k_: v_ for k_, v_ in b.ghost.items() if isinstance(k_, tuple) and k_[0] == "link"}
+        if set(la) != set(lb) or any(la[k_][1:] != lb[k_][1:] or not z3.eq(lift(la[k_][0]), lift(lb[k_][0])) for k_ in la):
+            return None  # a local aliases a heap container on one side only
         if self.c and any(n in self.c.modifies for n in (a.rebound ^ b.rebound)):
             return None  # a `modifies` parameter re-bound on one side only: what the caller sees differs per path
         c = a.pc[base]
